@@ -95,6 +95,15 @@ class VMModel:
                 if not getattr(orig, "_nslsa_expanded", False):
                     self.execute = expand_helpers(model, self.ec, orig, skip=kept + tuple("_ExecutionContext" + k for k in kept if k.startswith("__")))
                     self.execute._nslsa_expanded = True
+                    # helpers that are now read in place and that nothing else calls are not separate units of analysis
+                    inl = set(getattr(self.execute, "_nslsa_inlined", ()))
+                    for h_ in list(inl):
+                        for k_, v_ in self.ec.methods.items():
+                            if v_ is orig or v_.name == h_:
+                                continue
+                            if any(isinstance(c_, ast.Attribute) and c_.attr in (h_, "__" + h_.split("__")[-1]) for c_ in ast.walk(v_)) and v_.name not in inl:
+                                inl.discard(h_)
+                    self.ec.inlined_helpers = inl
                     # every rule sees the same tree: the class's method table now holds the expanded interpreter
                     for k_, v_ in list(self.ec.methods.items()):
                         if v_ is orig:
@@ -145,11 +154,29 @@ class VMModel:
             if not isinstance(val, int):
                 continue
 
+            fi_ = self.model.files[VM]
+            model_ = self.model
+
             class T(ast.NodeTransformer):
                 def visit_Attribute(self_inner, n):
                     if n.attr == "value":
                         return ast.copy_location(ast.Constant(val), n)
+                    # a member of an integer enum of the interpreter's own module (`_OpCodeGroup.BINARY_OPERATION`)
+                    if isinstance(n.value, ast.Name) and model_.has_cls(VM, n.value.id):
+                        try:
+                            mem = model_.enum_members(VM, n.value.id)
+                        except Exception:
+                            mem = {}
+                        if isinstance(mem.get(n.attr), int):
+                            return ast.copy_location(ast.Constant(mem[n.attr]), n)
                     return self_inner.generic_visit(n)
+
+                def visit_Name(self_inner, n):
+                    # a module-level integer constant (`_OPCODE_GROUP_SHIFT = 16`)
+                    v_ = fi_.assigns.get(n.id)
+                    if isinstance(v_, ast.Constant) and isinstance(v_.value, int):
+                        return ast.copy_location(ast.Constant(v_.value), n)
+                    return n
 
             g = T().visit(ast.parse(unparse(guard), mode="eval").body)
             try:
